@@ -2,6 +2,13 @@
 
 Engine E2: every (member tuple, input, maxiter) configuration is run under a
 ScriptedRandom; every answer of the cycle-breaking draws is a choice point.
+
+Parts: (1) constraints.and_/or_/not_ over ordinary members (pure, in-place, one object applied twice);
+(2) the same with members that RAISE a handled error at some vectors (kind 'err': ZeroDivisionError, the complex
+TypeError / ValueError): a member has no image there, so a success can neither count it as "left unchanged" (and_/or_)
+nor as "changed" (not_), and the error must not escape (exactly one of onexit/onfail fires);
+(3) function couplers and their histories; (4) penalty combinators, plain and (shards 'pk') with every `ptype` keyword x
+`k` keyword x {raw condition, penalty member of each type, nested combinator} members.
 """
 import itertools
 from mc import tree, env
@@ -70,6 +77,8 @@ def vcomplex(x):                                                                
 ERRMEMBERS = [_mk(unit_sum, 'unit_sum', True), _mk(scale_first, 'scale_first', True), _mk(recip, 'recip', False),
               _mk(sqrt_floor, 'sqrt_floor', False), _mk(vcomplex, 'vcomplex', True)]
 ERRNAMES = frozenset(m.__name__ for m in ERRMEMBERS)
+ERRKIND = {'unit_sum': 'ZeroDivisionError', 'scale_first': 'ZeroDivisionError', 'recip': 'ZeroDivisionError',
+           'sqrt_floor': 'complex_TypeError', 'vcomplex': 'complex_ValueError'}
 HANDLED = (ZeroDivisionError, TypeError, ValueError)       # what the members above raise, nothing else
 ERR_GRID = [-1.0, 0.0, 1.0, 2.0]
 ERR_INPUTS = [[a, b] for a in ERR_GRID for b in ERR_GRID]
@@ -232,7 +241,8 @@ def shard(item):
                                        'randomised': bool(ndraw), 'reused_object': isinstance(x0, dict),
                                        'nonidempotent_member': bool(nonidem)} if not err else
                                       {'clause': kind + '_success', 'raising_member': True, 'what': _sigextra(names, y, fired),
-                                       'members': list(names), 'randomised': bool(ndraw), 'cap': 'maxiter=1' if maxiter == 1 else 'maxiter>1'},
+                                       'member_errors': sorted(set(ERRKIND[n] for n in names if n in ERRNAMES)), 'tuple_size': len(names),
+                                       'randomised': bool(ndraw), 'cap': 'maxiter=1' if maxiter == 1 else 'maxiter>1'},
                                       {'kind': kind, 'names': list(names), 'x0': x0,
                                        'maxiter': maxiter, 'array': arr, 'choices': ch.choices},
                                       msg + ' [members=%s x0=%r maxiter=%d choices=%r]'
@@ -370,6 +380,249 @@ def penalty_combinators(T):
                               'coupler.not_(%s %s) at %r = %r with condition value %r' % (ptype, n, x, got, v))
 
 
+# ------------------------------------------------------------------ penalty combinators x the `ptype` keyword
+# Reading of the statement used here (mystic.penalty: a condition f is satisfied where f(x) == 0 for the equality types and
+# where f(x) <= 0 for the inequality types).  The region a member accepts:
+#   * a penalty member built with <type>(g): {g == 0} / {g <= 0} by its OWN type;
+#   * a raw condition g (the branch "is a raw condition" of coupler.not_): g is read by the penalty type in use - the `ptype`
+#     keyword, default linear_equality as documented - so {g == 0} or {g <= 0}.
+# "penalises exactly the interior": positive on {g < 0} and zero on {g == 0} and {g > 0} for an inequality region; an equality
+# region {g == 0} is penalised as a whole (the reading the earlier part of this check already uses).
+# NOT judged (histogram only): `ptype` keyword of the other family than a penalty member's own type (the documentation does not
+# say which of the two defines the region), ptype=barrier_inequality (non-zero inside by design), points on the rim of a nested
+# member (and_/or_ of inequality penalties is an equality-typed penalty whose closed region is penalised, rim included) and
+# points where the condition itself raises.
+PT_EQ = ('linear_equality', 'quadratic_equality', 'uniform_equality', 'lagrange_equality')
+PT_IN = ('linear_inequality', 'quadratic_inequality', 'uniform_inequality', 'lagrange_inequality')
+PT_SILENT = ('barrier_inequality',)
+PKEYWORDS = (None,) + PT_EQ + PT_IN + PT_SILENT
+PK = ('unset', None, 0.5)                    # the k keyword: not given (combinators default it to 1), None (= the type's own default), 0.5
+PCONDS = {'x0-1': lambda x: x[0] - 1.0, 'x1': lambda x: x[1], 'x0+x1-2': lambda x: x[0] + x[1] - 2.0,
+          'disc2': lambda x: x[0] ** 2 + x[1] ** 2 - 4.0, 'x0*x1': lambda x: x[0] * x[1],
+          'x1/x0': lambda x: x[1] / x[0]}    # the last one raises ZeroDivisionError on x0 == 0 (and_/or_ members only)
+PGRID = [list(v) for v in itertools.product([-1.0, 0.0, 1.0, 2.0, 3.0], repeat=2)]
+NOT_CONDS = ('x0-1', 'x1', 'x0+x1-2', 'disc2', 'x0*x1')
+
+
+def _fam(ptname):
+    return 'ineq' if ptname.endswith('_inequality') else 'eq'
+
+
+def _pen(ptname, cname):
+    import mystic.penalty as mp
+    kw = {'k': 3} if ptname.startswith('uniform') else {}      # uniform_* default to k=inf; keep the values finite
+    return getattr(mp, ptname)(PCONDS[cname], **kw)(lambda x: 0.0)
+
+
+def _where(fam, v):
+    if fam == 'ineq':
+        return 'interior' if v < 0 else ('boundary' if v == 0 else 'outside')
+    return 'on' if v == 0 else 'outside'
+
+
+def _not_member(desc):
+    """desc -> (member object, own family or None for a raw condition, where(x, family_in_use))"""
+    import mystic.coupler as cp
+    kind = desc[0]
+    if kind == 'raw':
+        g = PCONDS[desc[1]]
+        return g, None, (lambda x, fam: _where(fam, g(x)))
+    if kind == 'pen':
+        g = PCONDS[desc[2]]; fam = _fam(desc[1])
+        return _pen(desc[1], desc[2]), fam, (lambda x, _f: _where(fam, g(x)))
+    if kind == 'not':                       # not_(<type>(g)): accepts {g >= 0} (inequality) / {g != 0} (equality); same family
+        g = PCONDS[desc[2]]; fam = _fam(desc[1])
+        def where(x, _f):
+            v = g(x)
+            if fam == 'ineq':
+                return 'interior' if v > 0 else ('boundary' if v == 0 else 'outside')
+            return 'on' if v != 0 else 'outside'
+        return cp.not_(_pen(desc[1], desc[2])), fam, where
+    parts = [(_fam(pt), PCONDS[c]) for pt, c in desc[1]]
+    pens = [_pen(pt, c) for pt, c in desc[1]]
+    def where(x, _f):
+        w = [_where(f, g(x)) for f, g in parts]
+        if kind == 'and':
+            if 'outside' in w: return 'outside'
+            if all(v == 'interior' for v in w): return 'interior'
+            if all(v == 'on' for v in w): return 'on'
+            return 'rim'
+        if all(v == 'outside' for v in w): return 'outside'
+        if 'interior' in w: return 'interior'
+        if all(f == 'eq' for f, _ in parts): return 'on'
+        return 'rim'
+    return (cp.and_ if kind == 'and' else cp.or_)(*pens), 'eq', where       # and_/or_ build a linear_equality penalty
+
+
+def _not_members():
+    out = [('raw', c) for c in NOT_CONDS]
+    out += [('pen', pt, c) for pt in PT_EQ + PT_IN for c in NOT_CONDS]
+    out += [('not', pt, c) for pt in ('linear_inequality', 'quadratic_equality', 'uniform_inequality') for c in ('x0-1', 'disc2')]
+    base = [('linear_inequality', 'x0-1'), ('quadratic_inequality', 'disc2'), ('quadratic_equality', 'x1'), ('linear_equality', 'x0+x1-2')]
+    out += [(op, [a, b]) for op in ('and', 'or') for a, b in itertools.combinations(base, 2)]
+    return out
+
+
+def _kw(ptname, k):
+    import mystic.penalty as mp
+    kw = {}
+    if ptname is not None:
+        kw['ptype'] = getattr(mp, ptname)
+    if k != 'unset':
+        kw['k'] = k
+    return kw
+
+
+def _num(v):
+    return 'nan' if v != v else ('neg' if v < 0 else ('zero' if v == 0 else 'pos'))
+
+
+def penalty_not_keyword(T, ptname, only=None):
+    """coupler.not_(member, ptype=ptname, k=...) on every member x grid point"""
+    import mystic.coupler as cp
+    for desc in _not_members():
+        if only is not None and only['member'] != jsonable_desc(desc):
+            continue
+        member, ownfam, where = _not_member(desc)
+        mkind = desc[0] if desc[0] in ('raw', 'pen') else 'nested_' + desc[0]
+        usefam = _fam(ptname) if ptname is not None else (ownfam or 'eq')
+        if ptname in PT_SILENT:
+            judged, why = False, 'barrier_keyword'
+        elif ownfam is not None and ptname is not None and _fam(ptname) != ownfam:
+            judged, why = False, 'keyword_of_other_family_than_member'
+        else:
+            judged, why = True, None
+        for k in PK:
+            if only is not None and only['k'] != k:
+                continue
+            try:
+                pn = cp.not_(member, **_kw(ptname, k))
+            except Exception as exc:                            # building the combinator is not supposed to fail
+                T.violate({'clause': 'penalty_not', 'member': mkind, 'what': 'construction_raised'},
+                          {'pk': 'not', 'ptype': ptname, 'member': desc, 'k': k}, 'coupler.not_(%r, ptype=%s, k=%r) raised %r' % (desc, ptname, k, exc))
+                continue
+            for x in PGRID:
+                if only is not None and only.get('x', x) != x:
+                    continue
+                T.count('traces'); T.count('transitions', 1)
+                w = where(x, usefam)
+                try:
+                    got = pn(list(x))
+                except Exception as exc:
+                    got = None
+                    if judged:
+                        T.violate({'clause': 'penalty_not', 'member': mkind, 'what': 'evaluation_raised'},
+                                  {'pk': 'not', 'ptype': ptname, 'member': desc, 'k': k, 'x': x},
+                                  'coupler.not_(%r, ptype=%s, k=%r)(%r) raised %r' % (desc, ptname, k, x, exc))
+                    continue
+                key = '%s|member_%s|keyword_%s|%s -> %s' % ('judged' if judged and w != 'rim' else 'unjudged:' + (why or 'rim_of_nested_member'),
+                                                          ownfam or 'raw', 'none' if ptname is None else ('barrier' if ptname in PT_SILENT else _fam(ptname)), w, _num(got))
+                T.hist('penalty_not_keyword', key)
+                if not judged or w == 'rim':
+                    continue
+                T.nontriv(('pk-not', ptname, desc, k, tuple(x)))
+                want_pos = w in ('interior', 'on')
+                if got != got or got < 0 or (got > 0) != want_pos:
+                    T.violate({'clause': 'penalty_not', 'member': mkind, 'member_family': ownfam or 'raw',
+                               'keyword_family': None if ptname is None else _fam(ptname), 'where': w, 'got': _num(got)},
+                              {'pk': 'not', 'ptype': ptname, 'member': desc, 'k': k, 'x': x},
+                              'coupler.not_(%r%s%s) at %r = %r: the point is %s the region the member accepts, so the penalty must be %s'
+                              % (desc, '' if ptname is None else ', ptype=' + ptname, '' if k == 'unset' else ', k=%r' % (k,), x, got,
+                                 {'interior': 'strictly inside', 'on': 'in (equality region)', 'boundary': 'on the boundary of', 'outside': 'outside'}[w],
+                                 'positive' if want_pos else 'zero'))
+
+
+def jsonable_desc(desc):
+    import json
+    return json.loads(json.dumps(desc))
+
+
+def _andor_pens():
+    names = [(pt, c) for pt in PT_EQ + PT_IN for c in ('x0-1', 'x1', 'x0+x1-2')]
+    names += [('linear_equality', 'x1/x0'), ('quadratic_inequality', 'x1/x0')]
+    return names
+
+
+def _andor_combos():
+    names = _andor_pens()
+    combos = [(a,) for a in names] + list(itertools.combinations(names, 2))
+    sub = [('linear_equality', 'x0-1'), ('quadratic_inequality', 'x1'), ('uniform_inequality', 'x0+x1-2'),
+           ('lagrange_inequality', 'x0-1'), ('uniform_equality', 'x1'), ('linear_inequality', 'x1/x0')]
+    combos += list(itertools.combinations(sub, 3))
+    return combos
+
+
+def penalty_andor_keyword(T, ptname, only=None):
+    """coupler.and_/or_(*members, ptype=ptname, k=...): zero exactly where all / any member penalties are zero"""
+    import mystic.coupler as cp
+    pens = {}
+    for combo in _andor_combos():
+        if only is not None and jsonable_desc(combo) != only['members']:
+            continue
+        ps = []
+        for d in combo:
+            if d not in pens:
+                pens[d] = _pen(*d)
+            ps.append(pens[d])
+        fams = ''.join(sorted(set(_fam(pt)[0] for pt, _ in combo)))
+        for k in PK:
+            if only is not None and only['k'] != k:
+                continue
+            kw = _kw(ptname, k)
+            try:
+                pa, po = cp.and_(*ps, **kw), cp.or_(*ps, **kw)
+            except Exception as exc:
+                T.violate({'clause': 'penalty_andor', 'what': 'construction_raised'},
+                          {'pk': 'and', 'ptype': ptname, 'members': combo, 'k': k},
+                          'coupler.and_/or_(%r, ptype=%s, k=%r) raised %r' % (combo, ptname, k, exc))
+                continue
+            for x in PGRID:
+                if only is not None and only.get('x', x) != x:
+                    continue
+                T.count('traces'); T.count('transitions', 2)
+                vals = [p(list(x)) for p in ps]
+                try:
+                    op = 'and'; va = pa(list(x)); op = 'or'; vo = po(list(x))
+                except Exception as exc:
+                    if ptname not in PT_SILENT:
+                        T.violate({'clause': 'penalty_' + op, 'what': 'evaluation_raised'},
+                                  {'pk': op, 'ptype': ptname, 'members': combo, 'k': k, 'x': x},
+                                  'coupler.%s_(%r, ptype=%s, k=%r)(%r) raised %r; member penalties there %r' % (op, combo, ptname, k, x, exc, vals))
+                    continue
+                allz, anyz = all(v == 0 for v in vals), any(v == 0 for v in vals)
+                if ptname in PT_SILENT:
+                    T.hist('penalty_andor_keyword', 'unjudged:barrier_keyword|and members_all_zero=%s -> %s' % (allz, _num(va)))
+                    T.hist('penalty_andor_keyword', 'unjudged:barrier_keyword|or members_any_zero=%s -> %s' % (anyz, _num(vo)))
+                    continue
+                T.nontriv(('pk-andor', ptname, combo, k, tuple(x)))
+                kf = 'none' if ptname is None else _fam(ptname)
+                T.hist('penalty_andor_keyword', 'judged|keyword_%s|members_%s|and members_all_zero=%s -> %s' % (kf, fams, allz, _num(va)))
+                T.hist('penalty_andor_keyword', 'judged|keyword_%s|members_%s|or members_any_zero=%s -> %s' % (kf, fams, anyz, _num(vo)))
+                for op, v, z in (('and', va, allz), ('or', vo, anyz)):
+                    # the clause is about the ZERO SET only: a nan (lagrange_* re-scaling an infinite member penalty, 0*inf)
+                    # is "not zero" and is judged as such; it shows in the histogram as '-> nan'
+                    if v < 0 or (v == 0) != z:
+                        T.violate({'clause': 'penalty_' + op, 'keyword_family': None if ptname is None else _fam(ptname),
+                                   'member_families': fams, 'members_zero': z, 'got': _num(v)},
+                                  {'pk': op, 'ptype': ptname, 'members': combo, 'k': k, 'x': x},
+                                  'coupler.%s_(%s%s%s) at %r = %r, member penalties there %r: must be zero exactly where %s of them are zero'
+                                  % (op, ', '.join('%s(%s)' % d for d in combo), '' if ptname is None else ', ptype=' + ptname,
+                                     '' if k == 'unset' else ', k=%r' % (k,), x, v, vals, 'all' if op == 'and' else 'any'))
+
+
+def shard_pk(item):
+    T = Tally()
+    _, ptname = item
+    import numpy
+    with numpy.errstate(all='ignore'):          # barrier_inequality takes log(0) on the boundary
+        penalty_not_keyword(T, ptname)
+        penalty_andor_keyword(T, ptname)
+    T.count('states', 1)
+    T.sample({'penalty_keyword': ptname, 'not_members': len(_not_members()), 'andor_member_tuples': len(_andor_combos()),
+              'k': list(PK), 'grid_points': len(PGRID)})
+    return T
+
+
 def shard_misc(_):
     T = Tally()
     couplers(T)
@@ -412,8 +665,39 @@ def run(ctx):
     for kind in ('and', 'or'):
         for i in range(0, len(rtuples), 6):
             items.append((kind, rtuples[i:i + 6], (3, 10), 1, 0, 'reuse'))
+    # members that raise a handled error at some vectors (no image there): not_ singles; and_/or_ singles, pairs of
+    # two of them, and pairs with an ordinary member in both orders; list inputs over ERR_GRID^2
+    errn = [m.__name__ for m in ERRMEMBERS]
+    eord = ['identity', 'pin1', 'le2', 'ge3', 'swap', 'shift', 'tie', 'le2!'] + (['pin2', 'round0', 'box', 'step', 'swap!', 'chase!'] if thorough else [])
+    etuples = [(a,) for a in errn] + [(a, b) for a in errn for b in errn]
+    etuples += [t for a in errn for b in eord for t in ((a, b), (b, a))]
+    etriples = [t for a in errn for b in ('le2', 'swap') for c in ('identity', 'shift', 'recip')
+                for t in ((a, b, c), (b, a, c), (b, c, a))] if thorough else []
+    emax = (1, 2, 3) if not thorough else (1, 2, 3, 4)
+    for n in errn:
+        if not thorough:
+            items.append(('not', [(n,)], emax, 1, 4, 'err'))
+        else:
+            items.append(('not', [(n,)], (1, 2, 3), 2, 4, 'err'))
+            items.append(('not', [(n,)], (4,), 1, 4, 'err'))
+    for kind in ('and', 'or'):
+        for i in range(0, len(etuples), 5):
+            items.append((kind, etuples[i:i + 5], emax, 1, 4, 'err'))
+        for i in range(0, len(etriples), 3):
+            items.append((kind, etriples[i:i + 3], (1, 2, 3), 1, 4, 'err'))
+        if thorough:        # deviation bound 2 on the pairs of two raising members
+            for a in errn:
+                items.append((kind, [(a, b) for b in errn], (1, 2, 3), 2, 4, 'err'))
     items.append(None)
-    ctx.bounds = {'in_place_members': inplace, 'reuse_members': rmem, 'reuse_inputs(first,then)': REUSE_INPUTS, 'reuse_maxiter': [3, 10],
+    for ptname in PKEYWORDS:
+        items.append(('pk', ptname))
+    ctx.bounds = {'penalty_ptype_keyword': list(PKEYWORDS), 'penalty_k_keyword': list(PK), 'penalty_grid': PGRID,
+                  'penalty_not_members(raw|pen|nested)': _not_members(), 'penalty_andor_member_penalties': _andor_pens(),
+                  'penalty_andor_member_tuples': len(_andor_combos()),
+                  'raising_members': errn, 'raising_inputs': ERR_INPUTS, 'raising_partner_members': eord,
+                  'raising_tuples(singles+pairs)': len(etuples), 'raising_triples(maxiter 1-3)': len(etriples), 'raising_maxiter': list(emax),
+                  'raising_deviation_bound': ('not_: 2 up to maxiter 3, 1 at maxiter 4; and_/or_: 1, and 2 on pairs of two raising members up to maxiter 3') if thorough else 'not_, and_, or_: 1',
+                  'in_place_members': inplace, 'reuse_members': rmem, 'reuse_inputs(first,then)': REUSE_INPUTS, 'reuse_maxiter': [3, 10],
                   'members': names, 'core_members_for_triples': core, 'inputs': INPUTS, 'maxiter': maxiters,
                   'unit_alphabet': list(UNIT), 'randint': [-1, 0, 1],
                   'plan(size,members,free_prefix_choice_points,deviation_bound_after_prefix)':
@@ -421,14 +705,24 @@ def run(ctx):
     ctx.rule = ("every (combinator, member tuple, input, maxiter, list/array) configuration is run under every answer of its "
                 "random draws (the first `free` draws complete = the whole first randomisation event of a 2-vector, then deviation bound); "
                 "a configuration is non-trivial when its executions produced more than one distinct (path, result) outcome; "
-                "coupler / penalty-combinator grid points count once each")
+                "coupler / penalty-combinator grid points count once each; penalty combinators x ptype keyword: every (member or member tuple, "
+                "ptype keyword, k keyword, grid point) is one case, non-trivial when it is judged (the statement defines the region); "
+                "raising members: kind 'err' configurations enumerate the same random answers, the histograms err_* say where in the run a member raised")
     ctx.assumptions = ["members are deterministic python functions on 2-vectors",
-                       "random() answers restricted to the unit alphabet; randint fully enumerated"]
+                       "random() answers restricted to the unit alphabet; randint fully enumerated",
+                       "a member that raises a handled error at y has no image there: it neither changes y nor leaves it unchanged",
+                       "penalty `ptype` keyword: judged for raw conditions (region read by the type in use) and for penalty members when the keyword "
+                       "is of the member's own family; other-family keyword, barrier_inequality and rim points of nested members are only histogrammed",
+                       "and_/or_ penalty clause is about the zero set: nan (lagrange_* applied to an infinite member penalty) counts as non-zero"]
     ctx.pmap(_dispatch, items)
 
 
 def _dispatch(it):
-    return shard_misc(it) if it is None else shard(it)
+    if it is None:
+        return shard_misc(it)
+    if it[0] == 'pk':
+        return shard_pk(it)
+    return shard(it)
 
 
 def replay(case):
@@ -439,6 +733,15 @@ def replay(case):
         msg = _judge(case['kind'], tuple(case['names']), y, fired)
         if msg:
             out.append(msg)
+    elif 'pk' in case:
+        T = Tally()
+        import numpy
+        with numpy.errstate(all='ignore'):
+            if case['pk'] == 'not':
+                penalty_not_keyword(T, case['ptype'], only=case)
+            else:
+                penalty_andor_keyword(T, case['ptype'], only=case)
+        out = [v['detail'] for v in T.violations.values()]
     else:
         T = Tally()
         couplers(T); penalty_combinators(T)
